@@ -285,8 +285,37 @@ def _differential(ctx, lark, _parser, fresh, shipped, gen, n, log, total_entries
                     k = "accept-vs-reject" if a[0] != b[0] else "trees-differ"
                     ctx.violation(f"C16:parsers-disagree:{k}", f"start={start} text={text[:30]!r}... ({len(text)} characters): grammar {str(a)[:120]} vs shipped {str(b)[:120]}",
                                   {"text_head": text[:60], "length": len(text), "start": start})
+    import enum
+
+    class Plain(str):
+        pass
+
+    class Talkative(str):
+        def __str__(self):
+            return f"Talkative.{str.__str__(self).upper()}"
+
+        __repr__ = __str__
+
+    def dressed(text, i):
+        """the same characters in a str subclass (a plain one, one whose str() says something else, a member of an Enum that
+        mixes in str): what is parsed is the text the object IS, not what str() makes of it"""
+        k = i % 51
+        if k == 3:
+            return Plain(text), "str subclass"
+        if k == 20:
+            return Talkative(text), "str subclass with its own __str__"
+        if k == 37 and text:
+            try:
+                return enum.Enum("SI_Units", {"TEXT_1": text}, type=str).TEXT_1, "member of an Enum that mixes in str"
+            except Exception:
+                return text, None
+        return text, None
+
     for i in range(n):
         text, kind = gen.any_text()
+        given, dress = dressed(text, i)
+        if dress:
+            ctx.count(f"inputs_of_another_string_type/{dress}")
         for start in ("unit", "quantity"):
             ctx.count("evaluations")
             try:
@@ -296,7 +325,7 @@ def _differential(ctx, lark, _parser, fresh, shipped, gen, n, log, total_entries
             except Exception as e:
                 a = ("crash", type(e).__name__)
             try:
-                b = ("ok", tree_shape(shipped.parse(text, start=start)))
+                b = ("ok", tree_shape(shipped.parse(given, start=start)))
             except _parser.LarkError:
                 b = ("reject",)
             except Exception as e:
